@@ -1,0 +1,74 @@
+//go:build verif
+
+package parser
+
+import "evylang.dev/evy/pkg/lexer"
+
+// This file is compiled only with the "verif" build tag. It exports
+// read-only views of unexported parser internals for the verification
+// harness in /verif. It adds no behaviour.
+
+// VerifAccepts exposes (*Type).accepts.
+func VerifAccepts(t, t2 *Type) bool { return t.accepts(t2) }
+
+// VerifMatches exposes (*Type).matches.
+func VerifMatches(t, t2 *Type) bool { return t.matches(t2) }
+
+// VerifInfer exposes (*Type).infer.
+func VerifInfer(t *Type) *Type { return t.infer() }
+
+// VerifCombineTypes exposes combineTypes.
+func VerifCombineTypes(types []*Type) *Type { return combineTypes(types) }
+
+// VerifFixedType exposes fixedType.
+func VerifFixedType(t *Type) *Type { return fixedType(t) }
+
+// VerifPrecedences returns a copy of the binding-power table keyed by
+// token type.
+func VerifPrecedences() map[lexer.TokenType]int {
+	m := make(map[lexer.TokenType]int, len(precedences))
+	for k, v := range precedences {
+		m[k] = int(v)
+	}
+	return m
+}
+
+// VerifComment returns the comment recorded for node n, if any.
+func VerifComment(p *Program, n Node) (string, bool) {
+	if p == nil || p.formatting == nil {
+		return "", false
+	}
+	c, ok := p.formatting.comments[n]
+	return c, ok
+}
+
+// VerifWSS reports whether binary expression n was recorded as written
+// with surrounding whitespace.
+func VerifWSS(p *Program, n *BinaryExpression) bool {
+	if p == nil || p.formatting == nil {
+		return false
+	}
+	return p.formatting.wss[n]
+}
+
+// VerifMultiline returns the multiline items recorded for literal n.
+func VerifMultiline(p *Program, n Node) ([]string, bool) {
+	if p == nil || p.formatting == nil {
+		return nil, false
+	}
+	items, ok := p.formatting.multiline[n]
+	if !ok {
+		return nil, false
+	}
+	out := make([]string, len(items))
+	for i, it := range items {
+		out[i] = string(it)
+	}
+	return out, true
+}
+
+// VerifAlwaysTerminates exposes alwaysTerms for a node.
+func VerifAlwaysTerminates(n Node) bool { return alwaysTerms(n) }
+
+// VerifVarUsed reports the isUsed flag of a variable node.
+func VerifVarUsed(v *Var) bool { return v.isUsed }
